@@ -149,7 +149,13 @@ def gen_sn_desc(rng, n_blocks=None, max_branches=5, kinds=None, allow_twice=True
             size //= 2
         elif r < 0.8:
             co = rng.randint(2, 5)
-            stages.append({'type': 'conv', 'name': nm('mid'), 'cin': c, 'cout': co, 'k': 1})
+            # fixed layers whose qualified name starts like a choice block's (blk / blk_proj,
+            # sn3 / sn30) must still be counted as fixed layers
+            last_sn = stages[-1]['name'] if stages[-1]['type'] == 'sn' else None
+            rr = rng.random()
+            name = nm('mid') if (last_sn is None or rr < 0.4) else (
+                last_sn + '_proj' if rr < 0.7 else last_sn + '0')
+            stages.append({'type': 'conv', 'name': name, 'cin': c, 'cout': co, 'k': 1})
             stages.append({'type': 'relu'})
             c = co
     return {'input': [c0, H, W], 'stages': stages, 'c_last': c, 'n_out': rng.randint(2, 4)}
